@@ -10,17 +10,50 @@ A = items.append
 def G(name, impl=None, **kw):
     A(Fn(GLB, name, impl=impl, mod="global", **kw))
 
+# ---- layouts the parsers return, as predicates over the field list (SHAPES only, derived from the component![..] of the builder: vx.layouts)
+def shape_fn(name, builder, file=GLB, nth=1, extra=""):
+    body = shape_clauses(file, builder, res="__R", nth=nth)[0][2].replace("__R.fields()", "f")
+    return "pub open spec fn %s(f: Seq<(Seq<char>, MV)>) -> bool { %s%s }\n" % (name, body, extra)
+A(Raw(
+    shape_fn("share_control_fields", "share_control_header") +
+    shape_fn("share_data_fields", "share_data_header") +
+    shape_fn("demand_active_fields", "ts_demand_active_pdu") +
+    shape_fn("control_fields", "ts_control_pdu") +
+    shape_fn("error_info_fields", "ts_set_error_info_pdu") +
+    shape_fn("fp_update_fields", "ts_fp_update") +
+    shape_fn("bitmap_data_fields", "ts_bitmap_data") +
+    shape_fn("fp_bitmap_fields", "ts_fp_update_bitmap") +
+    shape_fn("capability_set_fields", "capability_set", file=CAP, nth=2) + r"""
+/// every element of an Array field is a component with the given layout
+pub open spec fn arr_of(m: MV, shape: spec_fn(Seq<(Seq<char>, MV)>) -> bool) -> bool {
+    m is Arr && forall|i: int| 0 <= i < m->Arr_0.len() ==> (#[trigger] m->Arr_0[i]) is Comp && shape(m->Arr_0[i]->Comp_0)
+}
+""", mod="global", name="reader_shapes"))
+SS2 = "proof { reveal_with_fuel(same_shape, 2); }"
+
 # ---- parsers (C06: total on any bytes; unknown kinds are errors)
 G("from_stream", impl=r"impl PDU", props=["C06"], keys=True,
-  ensures=[("C06", "monotone", "is_suffix(final(stream).rest(), old(stream).rest())")])
+  ensures=[("C06", "monotone", "is_suffix(final(stream).rest(), old(stream).rest())"),
+           ("C06", "known-kinds-only", "r is Ok ==> (r->Ok_0.pdu_type is PdutypeDemandactivepdu || r->Ok_0.pdu_type is PdutypeDatapdu || r->Ok_0.pdu_type is PdutypeConfirmactivepdu || r->Ok_0.pdu_type is PdutypeDeactivateallpdu)"),
+           ("C06", "data-layout", "r is Ok && r->Ok_0.pdu_type is PdutypeDatapdu ==> share_data_fields(r->Ok_0.message.fields())"),
+           ("C06", "demand-active-layout", "r is Ok && r->Ok_0.pdu_type is PdutypeDemandactivepdu ==> demand_active_fields(r->Ok_0.message.fields())")],
+  pre=SS2)
 G("from_control", impl=r"impl PDU", props=["C06"], keys=True,
   requires=["has_key(control.fields(), \"pduType\"@)", "has_key(control.fields(), \"pduMessage\"@)"],
-  ensures=[("C06", "known-kinds-only", "r is Ok ==> (r->Ok_0.pdu_type is PdutypeDemandactivepdu || r->Ok_0.pdu_type is PdutypeDatapdu || r->Ok_0.pdu_type is PdutypeConfirmactivepdu || r->Ok_0.pdu_type is PdutypeDeactivateallpdu)")])
+  ensures=[("C06", "known-kinds-only", "r is Ok ==> (r->Ok_0.pdu_type is PdutypeDemandactivepdu || r->Ok_0.pdu_type is PdutypeDatapdu || r->Ok_0.pdu_type is PdutypeConfirmactivepdu || r->Ok_0.pdu_type is PdutypeDeactivateallpdu)"),
+           ("C06", "data-layout", "r is Ok && r->Ok_0.pdu_type is PdutypeDatapdu ==> share_data_fields(r->Ok_0.message.fields())"),
+           ("C06", "demand-active-layout", "r is Ok && r->Ok_0.pdu_type is PdutypeDemandactivepdu ==> demand_active_fields(r->Ok_0.message.fields())")],
+  pre=SS2)
 G("from_pdu", impl=r"impl DataPDU", props=["C06"], keys=True,
   requires=["has_key(data_pdu.message.fields(), \"pduType2\"@)", "has_key(data_pdu.message.fields(), \"payload\"@)"],
-  ensures=[("C06", "known-kinds-only", "r is Ok ==> (r->Ok_0.pdu_type is Pdutype2Synchronize || r->Ok_0.pdu_type is Pdutype2Control || r->Ok_0.pdu_type is Pdutype2Fontlist || r->Ok_0.pdu_type is Pdutype2Fontmap || r->Ok_0.pdu_type is Pdutype2SetErrorInfoPdu)")])
+  ensures=[("C06", "known-kinds-only", "r is Ok ==> (r->Ok_0.pdu_type is Pdutype2Synchronize || r->Ok_0.pdu_type is Pdutype2Control || r->Ok_0.pdu_type is Pdutype2Fontlist || r->Ok_0.pdu_type is Pdutype2Fontmap || r->Ok_0.pdu_type is Pdutype2SetErrorInfoPdu)"),
+           ("C06", "control-layout", "r is Ok && r->Ok_0.pdu_type is Pdutype2Control ==> control_fields(r->Ok_0.message.fields())"),
+           ("C06", "error-info-layout", "r is Ok && r->Ok_0.pdu_type is Pdutype2SetErrorInfoPdu ==> error_info_fields(r->Ok_0.message.fields())")],
+  pre=SS2)
 G("from_fp", impl=r"impl FastPathUpdate", props=["C06", "C10"], keys=True,
-  requires=["has_key(fast_path.fields(), \"updateHeader\"@)", "has_key(fast_path.fields(), \"updateData\"@)"])
+  requires=["has_key(fast_path.fields(), \"updateHeader\"@)", "has_key(fast_path.fields(), \"updateData\"@)"],
+  ensures=[("C06,C10", "bitmap-layout", "r is Ok && r->Ok_0.fp_type is FastpathUpdatetypeBitmap ==> fp_bitmap_fields(r->Ok_0.message.fields())")],
+  pre=SS2)
 
 # ---- client
 G("new", impl=r"impl Client", props=["C12"],
@@ -33,6 +66,7 @@ G("read_font_map_pdu", impl=r"impl Client", props=["C06", "C12"], keys=True, ens
 # rule R6: Verus' for-loops do not support `continue`: the loop over the parsed PDUs is spelled as an index loop (increment first, same order, same elements)
 G("read_data_pdu", impl=r"impl Client", props=["C06", "C12"], keys=True,
   body_sub=[(r"for pdu in message\.inner\(\) \{", "let __items = message.inner(); let mut __i: usize = 0; while __i < __items.len() { let pdu = &__items[__i]; __i += 1;")],
+  loops={1: "invariant __i <= __items.len()\n decreases __items.len() - __i"},
   ensures=[("C12", "only-deactivate-resets", "final(self).st() is Data || final(self).st() is DemandActivePDU || final(self).st() == old(self).st()"),
            (None, "config", "final(self).same_config(old(self)) && final(self).share() == old(self).share()")])
 A(Raw(r"""
